@@ -3,7 +3,7 @@ from harness import *
 from electrumx.server.session import SessionManager
 logging.basicConfig(level=logging.ERROR)
 async def main():
-    d = tempfile.mkdtemp(prefix='c10', dir='/tmp/exp')
+    d = tempfile.mkdtemp(prefix='c10')
     chain = Chain(1)
     for i in range(8): chain.add_block(2)
     env = make_env(d)
